@@ -8,12 +8,17 @@
 (***************************************************************************)
 EXTENDS Naturals, Sequences, FiniteSets, TLC, Json, IOUtils, SequencesExt
 
+R == INSTANCE Rfc5321
 L == INSTANCE ClientLife WITH MAXOPS <- 0, OPNAMES <- {}, DEV_SendOnClosed <- FALSE, st <- 0, hist <- 0, outs <- 0
 
 Trace == ndJsonDeserialize(IOEnv.TRACE_FILE)
 
-VARIABLES l, b, st, cur, sharedCid, openSet, lastOpened, viol1, viols, stats
-tvars == <<l, b, st, cur, sharedCid, openSet, lastOpened, viol1, viols, stats>>
+VARIABLES l, b, st, cur, sharedCid, openSet, lastOpened, viol1, viols, stats,
+          srv      \* per server-side connection: the RFC 5321 session state the recorded commands / replies drive
+tvars == <<l, b, st, cur, sharedCid, openSet, lastOpened, viol1, viols, stats, srv>>
+NoSrv == [ss |-> "pre", helo |-> FALSE, pend |-> ""]
+SrvOf(c) == IF c \in DOMAIN srv THEN srv[c] ELSE NoSrv
+PutSrv(c, x) == [k \in DOMAIN srv \cup {c} |-> IF k = c THEN x ELSE srv[k]]
 Ev == Trace[l]
 
 F(name, ok) == IF ok THEN {} ELSE {name}
@@ -21,7 +26,7 @@ NoCall == [active |-> FALSE, k |-> 0, op |-> "", f |-> "", res |-> 0, cmds |-> <
 ZeroStats == [traces |-> 0, events |-> 0, calls |-> 0, delivered |-> 0, errors |-> 0, noconn |-> 0, gone |-> 0]
 
 TInit == /\ l = 1 /\ b = [t |-> 0] /\ st = L!InitSt /\ cur = NoCall /\ sharedCid = 0 /\ openSet = {} /\ lastOpened = 0
-         /\ viol1 = {} /\ viols = {} /\ stats = ZeroStats
+         /\ viol1 = {} /\ viols = {} /\ stats = ZeroStats /\ srv = <<>>
 
 (* judgement of one finished call: e is the ret event *)
 RetFlags(e) ==
@@ -48,33 +53,47 @@ Step ==
   /\ l' = l + 1
   /\ CASE Ev.ev = "eof" ->
             /\ JsonSerialize(IOEnv.OUT_FILE, [violations |-> SetToSeq(viols), drift |-> <<>>, stats |-> [stats EXCEPT !.events = l]])
-            /\ UNCHANGED <<b, st, cur, sharedCid, openSet, lastOpened, viol1, viols, stats>>
+            /\ UNCHANGED <<srv, b, st, cur, sharedCid, openSet, lastOpened, viol1, viols, stats>>
        [] Ev.ev = "begin" ->
             /\ b' = Ev /\ st' = L!InitSt /\ cur' = NoCall /\ sharedCid' = 0 /\ openSet' = {} /\ lastOpened' = 0 /\ viol1' = {}
+            /\ srv' = <<>>
             /\ UNCHANGED <<viols, stats>>
        [] Ev.ev = "gone" ->
             /\ stats' = [stats EXCEPT !.gone = @ + 1]
-            /\ UNCHANGED <<b, st, cur, sharedCid, openSet, lastOpened, viol1, viols>>
+            /\ UNCHANGED <<srv, b, st, cur, sharedCid, openSet, lastOpened, viol1, viols>>
        [] Ev.ev = "call" ->
             /\ cur' = [NoCall EXCEPT !.active = TRUE, !.k = Ev.k, !.op = Ev.op, !.f = Ev.f, !.res = L!Step(st, Ev.op, Ev.f)]
             /\ stats' = [stats EXCEPT !.calls = @ + 1]
-            /\ UNCHANGED <<b, st, sharedCid, openSet, lastOpened, viol1, viols>>
+            /\ UNCHANGED <<srv, b, st, sharedCid, openSet, lastOpened, viol1, viols>>
        [] Ev.ev = "open" ->
             /\ openSet' = openSet \cup {Ev.cid} /\ lastOpened' = Ev.cid
             /\ cur' = IF cur.active THEN [cur EXCEPT !.opened = @ \cup {Ev.cid}] ELSE cur
             /\ viol1' = viol1 \cup F("X01_NoDialOutsideCalls", cur.active)
-            /\ UNCHANGED <<b, st, sharedCid, viols, stats>>
+            /\ UNCHANGED <<srv, b, st, sharedCid, viols, stats>>
        [] Ev.ev = "cclose" ->
             /\ openSet' = openSet \ {Ev.cid}
             /\ cur' = IF cur.active THEN [cur EXCEPT !.closed = @ \cup {Ev.cid}] ELSE cur
-            /\ UNCHANGED <<b, st, sharedCid, lastOpened, viol1, viols, stats>>
+            /\ UNCHANGED <<srv, b, st, sharedCid, lastOpened, viol1, viols, stats>>
        [] Ev.ev = "cmd" ->    \* a command line read by the reference server on connection Ev.conn
             /\ cur' = IF cur.active THEN [cur EXCEPT !.cmds = Append(@, Ev.conn)] ELSE cur
             /\ viol1' = viol1 \cup F("X01_NoTrafficOutsideCalls", cur.active)
+                               \* every connection of the history carries a legal RFC 5321 dialogue (Rfc5321.tla)
+                               \cup F("X01_LegalDialogue", R!SrvLegal(SrvOf(Ev.conn).ss, SrvOf(Ev.conn).helo, Ev.verb))
+            /\ srv' = PutSrv(Ev.conn, [SrvOf(Ev.conn) EXCEPT !.pend = Ev.verb])
             /\ UNCHANGED <<b, st, sharedCid, openSet, lastOpened, viols, stats>>
        [] Ev.ev = "eod" ->    \* the reply to the end-of-data follows; acked when it is positive
             /\ cur' = [cur EXCEPT !.acked = Trace[l + 1].ev = "reply" /\ Trace[l + 1].code = 250]
-            /\ UNCHANGED <<b, st, sharedCid, openSet, lastOpened, viol1, viols, stats>>
+            /\ viol1' = viol1 \cup F("X01_LegalDialogue", SrvOf(Ev.conn).ss = "data")
+            /\ srv' = PutSrv(Ev.conn, [SrvOf(Ev.conn) EXCEPT !.pend = "EOD"])
+            /\ UNCHANGED <<b, st, sharedCid, openSet, lastOpened, viols, stats>>
+       [] Ev.ev = "greet" ->
+            /\ srv' = PutSrv(Ev.conn, [NoSrv EXCEPT !.ss = IF Ev.cls = "ok" THEN "idle" ELSE "pre"])
+            /\ UNCHANGED <<b, st, cur, sharedCid, openSet, lastOpened, viol1, viols, stats>>
+       [] Ev.ev = "reply" ->
+            LET x == SrvOf(Ev.conn) IN
+            /\ srv' = PutSrv(Ev.conn, [x EXCEPT !.ss = R!SrvNext(x.ss, x.pend, Ev.cls), !.pend = "",
+                                                 !.helo = IF x.pend \in {"EHLO", "HELO"} /\ Ev.cls = "ok" THEN TRUE ELSE @])
+            /\ UNCHANGED <<b, st, cur, sharedCid, openSet, lastOpened, viol1, viols, stats>>
        [] Ev.ev = "ret" ->
             /\ viol1' = viol1 \cup RetFlags(Ev)
             /\ st' = cur.res.st
@@ -82,14 +101,14 @@ Step ==
             /\ cur' = NoCall
             /\ stats' = [stats EXCEPT !.delivered = @ + (IF Ev.delivered THEN 1 ELSE 0), !.errors = @ + (IF Ev.err THEN 1 ELSE 0),
                                       !.noconn = @ + (IF Ev.noconn THEN 1 ELSE 0)]
-            /\ UNCHANGED <<b, openSet, lastOpened, viols>>
+            /\ UNCHANGED <<srv, b, openSet, lastOpened, viols>>
        [] Ev.ev = "end" ->
             \* what is still open at the end: at most the shared connection and the ones a second Dial replaced
             /\ viols' = viols \cup {[t |-> b.t, p |-> p] : p \in viol1 \cup
                            F("X01_NoLeakBeyondReplaced", Cardinality(openSet) <= st.replaced + (IF st.shared = "open" THEN 1 ELSE 0))}
             /\ stats' = [stats EXCEPT !.traces = @ + 1]
-            /\ UNCHANGED <<b, st, cur, sharedCid, openSet, lastOpened, viol1>>
-       [] OTHER -> UNCHANGED <<b, st, cur, sharedCid, openSet, lastOpened, viol1, viols, stats>>
+            /\ UNCHANGED <<srv, b, st, cur, sharedCid, openSet, lastOpened, viol1>>
+       [] OTHER -> UNCHANGED <<srv, b, st, cur, sharedCid, openSet, lastOpened, viol1, viols, stats>>
 
 TSpec == TInit /\ [][Step]_tvars
 AllConsumed == TLCGet("stats").diameter - 1 = Len(Trace)
